@@ -480,6 +480,55 @@ func kernelCase(c *Case, lean *LeanDriver) Verdict {
 				v.EngVsProm = firstDiff("selectPoints vs declarative range selection", c.Refs, real, strings.Split(spS, ","))
 			}
 		}
+	case "kernel:matrixscan":
+		// as matrixSelector.Next drives it: selectPoints into the reused slice, then ReduceDelta
+		it := storage.NewBufferIterator(ser.Iterator(), c.KRange)
+		sr := c.KRange
+		if sr > c.KStep {
+			sr = c.KStep
+		}
+		var out []promql.Point
+		for _, r := range c.Refs {
+			var err error
+			out, err = scan.VerifSelectPoints(it, r-c.KRange, r, out)
+			if err != nil {
+				v.Other = "selectPoints error: " + err.Error()
+				return v
+			}
+			var ps []string
+			for _, p := range out {
+				ps = append(ps, fmt.Sprintf("%d:%s", p.T, kbits(p.V)))
+				v.NonTriv = true
+			}
+			real = append(real, strings.Join(ps, "+"))
+			it.ReduceDelta(sr)
+		}
+		lines := []string{"case " + c.ID, seriesLine(data[0]),
+			fmt.Sprintf("kernel matrixscan %d %d %d %d", c.KRange, c.KStep, c.Refs[0], len(c.Refs)), "end"}
+		ans, err := lean.Ask(lines)
+		if err != nil {
+			v.Crash = "lean: " + err.Error()
+			return v
+		}
+		var itS, spS string
+		for _, f := range strings.Fields(ans["kernel"]) {
+			if strings.HasPrefix(f, "it=") {
+				itS = f[3:]
+			}
+			if strings.HasPrefix(f, "spec=") {
+				spS = f[5:]
+			}
+		}
+		got := strings.Join(real, ",")
+		if got != itS {
+			v.EngVsModel = firstDiff("matrix scan vs iterator model with ReduceDelta", c.Refs, real, strings.Split(itS, ","))
+		}
+		if itS != spS {
+			v.ModelVsSpec = firstDiff("iterator model vs declarative range selection", c.Refs, strings.Split(itS, ","), strings.Split(spS, ","))
+		}
+		if got != spS {
+			v.EngVsProm = firstDiff("matrix scan vs declarative range selection", c.Refs, real, strings.Split(spS, ","))
+		}
 	default:
 		v.Skipped = "unknown kernel"
 		return v
@@ -567,6 +616,26 @@ func (g *Gen) kernelCase(i int) *Case {
 			}
 		}
 		r += step
+	}
+	if c.Query == "kernel:selectpoints" && g.chance(0.5) {
+		// the operator's own loop: an arithmetic grid of window ends and ReduceDelta after each
+		c.Query = "kernel:matrixscan"
+		c.KStep = g.pickI(1, 7, 1000, 10000, 15000, 30000, 60000, 300000, c.KRange, c.KRange+1, c.KRange/2+1)
+		if c.KStep <= 0 {
+			c.KStep = 1000
+		}
+		r0 := c.Refs[0]
+		nn := len(c.Refs)
+		if n > 0 && g.chance(0.6) {
+			// put a sample exactly on the left (or right) edge of some window of the grid
+			j := int64(g.r.Intn(nn))
+			r0 = ss[g.r.Intn(n)].T + g.pickI(c.KRange, c.KRange, 0) - j*c.KStep
+		}
+		c.Refs = c.Refs[:0]
+		for k := 0; k < nn; k++ {
+			c.Refs = append(c.Refs, r0+int64(k)*c.KStep)
+		}
+		return c
 	}
 	if g.chance(0.1) && len(c.Refs) > 2 {
 		// outside the theorem's hypothesis: the model alone must still follow the code
